@@ -213,19 +213,17 @@ pub(crate) mod verif_noise {
         unsafe { SHA_LEN[k] == a.len() + b.len() && eq(&SHA_IN[k], a, a.len()) && eq(&SHA_IN[k][a.len()..], b, b.len()) }
     }
 
-    /// C06(B) / C05(1) / C01(c): writer == specification; reader == specification; reader(writer(k)) = (k, sender key, same hash).
+    /// C06(B) / C05(1): the writer's trace and message are exactly what the Noise X pattern prescribes.
     #[kani::proof]
     #[kani::stub(crate::sha256, sha_model)]
     #[kani::stub(crate::hkdf_noise, hkdf_model)]
     #[kani::stub(crate::x25519, dh_model)]
     #[kani::stub(crate::chapoly_encrypt_noise, seal_model)]
-    #[kani::stub(crate::chapoly_decrypt_noise, open_model)]
     #[kani::unwind(6)]
-    pub fn noise_x_lockstep() {
+    pub fn noise_write_lockstep() {
         let prologue: [u8; 4] = kani::any();
-        let (s_priv, s_pub, e_priv, e_pub, r_priv, rs, payload): ([u8; 32], [u8; 32], [u8; 32], [u8; 32], [u8; 32], [u8; 32], [u8; 32]) =
-            (kani::any(), kani::any(), kani::any(), kani::any(), kani::any(), kani::any(), kani::any());
-        // ---------------- phase 1: initiator
+        let (s_priv, s_pub, e_priv, e_pub, rs, payload): ([u8; 32], [u8; 32], [u8; 32], [u8; 32], [u8; 32], [u8; 32]) =
+            (kani::any(), kani::any(), kani::any(), kani::any(), kani::any(), kani::any());
         unsafe { MODE = 0; }
         let mut hs = HandshakeState::init_x(
             true, &prologue,
@@ -238,51 +236,82 @@ pub(crate) mod verif_noise {
         unsafe {
             assert!(SHA_REC == 5 && HK_REC == 3 && DH_REC == 2 && AE_REC == 2, "[C06,C05] Noise X: five hashes, two MixKey + Split, two DH, two AEAD");
             let z = h0();
-            // prologue and pre-message
             assert!(cat_eq(0, &z, &prologue), "[C06,C05] h = SHA256(h0 || prologue), h0 = protocol name zero-padded to 32 bytes");
             assert!(cat_eq(1, &SHA_OUT[0], &rs), "[C06,C05] pre-message <- s: initiator mixes the RECIPIENT's static public key");
-            // e
             assert!(eq(&w.message, &e_pub, 32), "[C06,C08] message begins with the ephemeral public key in clear");
             assert!(cat_eq(2, &SHA_OUT[1], &e_pub), "[C06,C05] token e: MixHash(e.public)");
-            // es
             assert!(eq(&DH_K[0], &e_priv, 32) && eq(&DH_U[0], &rs, 32), "[C06,C05] token es: DH(ephemeral private, recipient static public)");
             assert!(eq(&HK_CK[0], &z, 32) && HK_IKMLEN[0] == 32 && eq(&HK_IKM[0], &DH_OUT[0], 32), "[C06,C05] MixKey(es): HKDF(ck = h0, DH result)");
-            // s
             assert!(eq(&AE_KEY[0], &HK_O2[0], 32) && AE_NONCE[0] == 0 && eq(&AE_AD[0], &SHA_OUT[2], 32) && eq(&AE_PT[0], &s_pub, 32), "[C06,C05] token s: EncryptAndHash(sender static public) under the es key, nonce 0, AD = h");
             assert!(eq(&w.message[32..], &AE_CT[0], 48), "[C06,C08] encrypted static key follows e");
             assert!(cat_eq(3, &SHA_OUT[2], &AE_CT[0]), "[C06,C05] MixHash(encrypted s)");
-            // ss
             assert!(eq(&DH_K[1], &s_priv, 32) && eq(&DH_U[1], &rs, 32), "[C06,C05] token ss: DH(sender static private, recipient static public)");
             assert!(eq(&HK_CK[1], &HK_O1[0], 32) && HK_IKMLEN[1] == 32 && eq(&HK_IKM[1], &DH_OUT[1], 32), "[C06,C05] MixKey(ss): HKDF(ck from es, DH result)");
-            // payload
             assert!(eq(&AE_KEY[1], &HK_O2[1], 32) && AE_NONCE[1] == 0 && eq(&AE_AD[1], &SHA_OUT[3], 32) && eq(&AE_PT[1], &payload, 32), "[C06,C05] payload: EncryptAndHash under the ss key, nonce reset to 0, AD = h");
             assert!(w.message.len() == 128 && eq(&w.message[80..], &AE_CT[1], 48), "[C06,C08] message = e || enc(s) || enc(payload), 128 bytes");
             assert!(cat_eq(4, &SHA_OUT[3], &AE_CT[1]), "[C06,C05] MixHash(encrypted payload)");
             assert!(eq(&w.handshake_hash, &SHA_OUT[4], 32), "[C06,C01] handshake hash = final h");
             assert!(eq(&HK_CK[2], &HK_O1[1], 32) && HK_IKMLEN[2] == 0, "[C06] Split(): HKDF(ck, empty)");
         }
-        // ---------------- phase 2: responder (static key pair (r_priv, rs)), replay
-        unsafe {
-            MODE = 1;
-            DH_REP_K[0] = r_priv; DH_REP_U[0] = e_pub;   // es = DH(recipient private, e)
-            DH_REP_K[1] = r_priv; DH_REP_U[1] = s_pub;   // ss = DH(recipient private, sender static public)
-        }
-        let mut hr = HandshakeState::init_x(
-            false, &prologue,
-            PrivateKey::try_from(&r_priv[..]).unwrap(), PublicKey::try_from(&rs[..]).unwrap(), None, None, None);
-        let rd = hr.read_message(&w.message);
-        unsafe {
-            assert!(!DIVERGED, "[C06,C05,C01] the responder computes exactly the initiator's hashes, keys and (commuted) DH pairs");
-            assert!(SHA_REP == 5 && HK_REP == 3 && DH_REP == 2 && AE_REP == 2, "[C06,C05] responder: five hashes, three HKDF, two DH, two AEAD");
-        }
-        assert!(rd.is_ok(), "[C01,C06] the responder accepts the initiator's message");
-        let rd = rd.unwrap();
-        assert!(rd.message.len() == 32 && eq(&rd.message, &payload, 32), "[C01] the payload key comes back unchanged");
-        let pk = hr.get_pubkey();
-        assert!(pk.is_some() && eq(pk.as_ref().unwrap().as_bytes(), &s_pub, 32), "[C01,C05] the responder reports exactly the sender's static public key");
-        assert!(eq(&rd.handshake_hash, &w.handshake_hash, 32), "[C01,C06] both sides derive the same handshake hash");
         assert!(hs.get_pubkey().is_none(), "[C05] the initiator side never reports a sender key");
-        core::mem::forget(hs); core::mem::forget(hr); core::mem::forget(w); core::mem::forget(rd); core::mem::forget(pk);
+        core::mem::forget(hs); core::mem::forget(w);
+    }
+
+    /// C01(c) / C05(1) / C06(B): the reader, given a message built exactly as the Noise X pattern prescribes (the trace
+    /// noise_write_lockstep shows the writer produces), recomputes the same hashes/keys, presents the commuted DH pairs,
+    /// and returns (payload, sender static key, same handshake hash). The trace tables are filled by the harness
+    /// from the specification, with fresh unconstrained values for every primitive result.
+    #[kani::proof]
+    #[kani::stub(crate::sha256, sha_model)]
+    #[kani::stub(crate::hkdf_noise, hkdf_model)]
+    #[kani::stub(crate::x25519, dh_model)]
+    #[kani::stub(crate::chapoly_decrypt_noise, open_model)]
+    #[kani::unwind(6)]
+    pub fn noise_read_lockstep() {
+        let prologue: [u8; 4] = kani::any();
+        let (s_pub, e_pub, r_priv, rs, payload): ([u8; 32], [u8; 32], [u8; 32], [u8; 32], [u8; 32]) =
+            (kani::any(), kani::any(), kani::any(), kani::any(), kani::any());
+        let z = h0();
+        unsafe {
+            // the specification's trace for an initiator with static public key s_pub, ephemeral e_pub, addressing rs
+            let h: [[u8; 32]; 5] = kani::any();
+            let (dh0, dh1, ck1, k1, ck2, k2, sp1, sp2): ([u8; 32], [u8; 32], [u8; 32], [u8; 32], [u8; 32], [u8; 32], [u8; 32], [u8; 32]) =
+                (kani::any(), kani::any(), kani::any(), kani::any(), kani::any(), kani::any(), kani::any(), kani::any());
+            let (c1, c2): ([u8; 48], [u8; 48]) = (kani::any(), kani::any());
+            SHA_OUT = h;
+            SHA_IN[0][..32].copy_from_slice(&z); SHA_IN[0][32..36].copy_from_slice(&prologue); SHA_LEN[0] = 36;
+            SHA_IN[1][..32].copy_from_slice(&h[0]); SHA_IN[1][32..64].copy_from_slice(&rs); SHA_LEN[1] = 64;
+            SHA_IN[2][..32].copy_from_slice(&h[1]); SHA_IN[2][32..64].copy_from_slice(&e_pub); SHA_LEN[2] = 64;
+            SHA_IN[3][..32].copy_from_slice(&h[2]); SHA_IN[3][32..80].copy_from_slice(&c1); SHA_LEN[3] = 80;
+            SHA_IN[4][..32].copy_from_slice(&h[3]); SHA_IN[4][32..80].copy_from_slice(&c2); SHA_LEN[4] = 80;
+            SHA_REC = 5;
+            DH_OUT[0] = dh0; DH_OUT[1] = dh1; DH_REC = 2;
+            DH_REP_K[0] = r_priv; DH_REP_U[0] = e_pub;   // es = DH(recipient private, e)      = DH(e private, rs)
+            DH_REP_K[1] = r_priv; DH_REP_U[1] = s_pub;   // ss = DH(recipient private, s pub)  = DH(s private, rs)
+            HK_CK[0] = z; HK_IKM[0] = dh0; HK_IKMLEN[0] = 32; HK_O1[0] = ck1; HK_O2[0] = k1;
+            HK_CK[1] = ck1; HK_IKM[1] = dh1; HK_IKMLEN[1] = 32; HK_O1[1] = ck2; HK_O2[1] = k2;
+            HK_CK[2] = ck2; HK_IKMLEN[2] = 0; HK_O1[2] = sp1; HK_O2[2] = sp2;
+            HK_REC = 3;
+            AE_KEY[0] = k1; AE_NONCE[0] = 0; AE_AD[0] = h[2]; AE_PT[0] = s_pub; AE_CT[0] = c1;
+            AE_KEY[1] = k2; AE_NONCE[1] = 0; AE_AD[1] = h[3]; AE_PT[1] = payload; AE_CT[1] = c2;
+            AE_REC = 2;
+            MODE = 1;
+            let mut msg = [0u8; 128];
+            msg[..32].copy_from_slice(&e_pub); msg[32..80].copy_from_slice(&c1); msg[80..].copy_from_slice(&c2);
+            let mut hr = HandshakeState::init_x(
+                false, &prologue,
+                PrivateKey::try_from(&r_priv[..]).unwrap(), PublicKey::try_from(&rs[..]).unwrap(), None, None, None);
+            let rd = hr.read_message(&msg);
+            assert!(!DIVERGED, "[C06,C05,C01] the responder computes exactly the initiator's hashes and keys and the commuted DH pairs (es with its own static key and e; ss with its own static key and the decrypted sender key)");
+            assert!(SHA_REP == 5 && HK_REP == 3 && DH_REP == 2 && AE_REP == 2, "[C06,C05] responder: five hashes, three HKDF, two DH, two AEAD");
+            assert!(rd.is_ok(), "[C01,C06] the responder accepts a message built per the specification for its key");
+            let rd = rd.unwrap();
+            assert!(rd.message.len() == 32 && eq(&rd.message, &payload, 32), "[C01] the payload key comes back unchanged");
+            let pk = hr.get_pubkey();
+            assert!(pk.is_some() && eq(pk.as_ref().unwrap().as_bytes(), &s_pub, 32), "[C01,C05] the responder reports exactly the sender's static public key");
+            assert!(eq(&rd.handshake_hash, &h[4], 32), "[C01,C06] the responder derives the initiator's handshake hash");
+            core::mem::forget(hr); core::mem::forget(rd); core::mem::forget(pk);
+        }
     }
 
     /// C05(3): a refused DH (all-zero shared secret) at es or ss aborts write_message with DhError.
